@@ -188,9 +188,15 @@ def review(ob, prog, roots, table, fshort, stop=(), include_overflow=False, scop
         # ... and a loop body turned into a closure (for -> for_each / any) moves a site from the function into one of its
         # closures: the review is per function, closures included
         return d.replace("alpenglow::", "").split("::{closure")[0]
+    def nw(kind, what):
+        # `xs[i]`, `xs[a..b]`, `xs[..n]`: index sites of one function into one kind of collection are reviewed together (a loop over `xs[off + i]`
+        # respelled as `xs[off..off + n].iter()` is the same access)
+        if kind == "index" and "[" in str(what):
+            return str(what).rsplit("[", 1)[0] + "[_]" if str(what).endswith("]") else what
+        return what
     ntable = {}
     for k, v in table.items():
-        kk = (nk(k[0]), k[1], "panicking::panic" if (k[1] == "panic" and str(k[2]).startswith("panicking::")) else k[2])
+        kk = (nk(k[0]), k[1], "panicking::panic" if (k[1] == "panic" and str(k[2]).startswith("panicking::")) else nw(k[1], k[2]))
         if kk in ntable:
             o_ = ntable[kk]
             status = "finding" if "finding" in (tuple(o_[2:3]) + tuple(v[2:3])) else None
@@ -240,7 +246,7 @@ def review(ob, prog, roots, table, fshort, stop=(), include_overflow=False, scop
                 if why:
                     autos.setdefault((nk(d), s.kind, s.what, why), []).append(s)
                     continue
-            groups.setdefault((nk(d), s.kind, s.what), []).append(s)
+            groups.setdefault((nk(d), s.kind, nw(s.kind, s.what)), []).append(s)
     # `x.expect("msg")` <-> `let Some(..) = x else { panic!("msg") }` <-> `match x { None => panic!(..) }`: the same site, spelled as an
     # unwrap or as an explicit panic. Reviewed capacity of a function is therefore pooled over the two kinds: an explicit panic may use
     # the unused capacity of a reviewed unwrap entry of the same function (and vice versa).
